@@ -3,6 +3,9 @@
 checks in parallel, restores /repo, and prints every alarm (each one is a false alarm to triage)."""
 import json, os, re, shutil, subprocess, sys, glob, concurrent.futures as cf
 ENV = dict(os.environ, GOFLAGS="-mod=mod", GOPROXY="off", GOSUMDB="off", GOTOOLCHAIN="local")
+REPO = os.environ.get("BENIGN_REPO", "/repo")
+BIN = os.environ.get("BENIGN_BIN", "/verif/bin/biocheck")
+TAG = os.environ.get("BENIGN_TAG", "bn")
 CLAIMED = [json.loads(l)["id"] for l in open("/verif/properties.jsonl") if json.loads(l)["id"] != "C10"]
 def sh(cmd, cwd=None):
     p = subprocess.run(cmd, shell=True, cwd=cwd, env=ENV, capture_output=True, text=True, timeout=900)
@@ -11,22 +14,22 @@ total = alarms = 0
 for d in sys.argv[1:]:
     for pd in sorted(glob.glob(d + "/*/patch.diff")) + sorted(glob.glob(d + "/patch.diff")):
         total += 1
-        rc, out = sh(f"git -C /repo apply {pd}")
+        rc, out = sh(f"git -C {REPO} apply {pd}")
         if rc != 0:
             print(pd, "does not apply"); continue
-        rc, out = sh("go build ./... && go test -vet=off -count=1 ./...", cwd="/repo")
+        rc, out = sh("go build ./... && go test -vet=off -count=1 ./...", cwd=REPO)
         suite = rc == 0
         def one(p):
-            vd = f"/tmp/bn-verif-{p}"
+            vd = f"/tmp/{TAG}-verif-{p}"
             os.makedirs(vd + "/evidence", exist_ok=True)
             shutil.copy("/verif/KNOWN_FINDINGS.txt", vd + "/KNOWN_FINDINGS.txt")
-            r, o = sh(f"/verif/bin/biocheck -property {p} -tier quick -dir /repo -verif {vd}")
+            r, o = sh(f"{BIN} -property {p} -tier quick -dir {REPO} -verif {vd}")
             lines = re.findall(r"^\s+((?:violated|undecided) .*)$", o, re.M)
             return p, r, lines
         res = []
         with cf.ThreadPoolExecutor(max_workers=12) as ex:
             res = list(ex.map(one, CLAIMED))
-        sh("git -C /repo checkout -- . && git -C /repo clean -fdq")
+        sh(f"git -C {REPO} checkout -- . && git -C {REPO} clean -fdq")
         bad = [(p, l) for p, r, l in res if r != 0]
         if bad:
             alarms += 1
@@ -35,5 +38,5 @@ for d in sys.argv[1:]:
             for l in lines[:4]:
                 print(f"    {p}: {l[:300]}")
 for p in CLAIMED:
-    shutil.rmtree(f"/tmp/bn-verif-{p}", ignore_errors=True)
+    shutil.rmtree(f"/tmp/{TAG}-verif-{p}", ignore_errors=True)
 print(f"patches={total} with_alarms={alarms}")
